@@ -4,7 +4,7 @@ import "fmt"
 
 const (
 	hardAllocLimit = 1 << 24 // elements; larger allocations are not modelled
-	sizeEnumLimit  = 64      // sizes up to this are enumerated exactly
+	sizeEnumLimit  = 16      // sizes up to this are enumerated exactly
 )
 
 // allocCheck enforces the harness' allocation limit (vnd.AllocLimit) on a
@@ -69,6 +69,12 @@ func (m *Machine) concretizeSize(t *Term, site string) int64 {
 	if m.allocLimit > 0 {
 		hi = uint64(m.allocLimit)
 	}
+	// the large representative is capped: that the size cannot exceed the limit was
+	// decided symbolically by allocCheck, the representative only has to be "large"
+	full := hi
+	if hi > 4096 {
+		hi = 4096
+	}
 	feasible := func(a, b uint64) (uint64, bool) {
 		q := And(Eq(probe, t), And(Not(Cmp(OpUlt, t, BV(64, a))), Not(Cmp(OpUlt, BV(64, b), t))))
 		rr, model := m.S.Check(m.pc, q, []*Term{probe})
@@ -107,6 +113,8 @@ func (m *Machine) concretizeSize(t *Term, site string) int64 {
 		if minv != maxv {
 			reps = append(reps, int64(minv))
 		}
+	} else if v, ok := feasible(lo, full); ok {
+		reps = append(reps, int64(v)) // only sizes above the cap are feasible: take one
 	}
 	m.sizeAbstracted++
 	// small values: enumerate exactly through the generic mechanism, restricted to <= limit
